@@ -287,6 +287,8 @@ impl PartitionReplicatorActor {
 
     async fn write_transaction(&mut self, tx: Transaction) -> Result<AppendResult, WriteError> {
         let confirmation_count = tx.confirmation_count();
+        #[cfg(sierradb_verif)]
+        let verif_txn = crate::verif::uuid_parts(&tx.transaction_id());
         let res = self
             .database
             .append_events(tx)
@@ -314,6 +316,17 @@ impl PartitionReplicatorActor {
                 );
                 self.buffered_writes
                     .progress_to(append.last_partition_sequence + 1);
+                #[cfg(sierradb_verif)]
+                crate::verif::point(
+                    "replica_applied",
+                    &[
+                        self.partition_id as u64,
+                        append.first_partition_sequence,
+                        append.last_partition_sequence,
+                        verif_txn.0,
+                        verif_txn.1,
+                    ],
+                );
 
                 // Buffer events for potential broadcast when confirmed
                 // Convert partition sequences to 1-indexed versions for the confirmation system
